@@ -217,6 +217,23 @@ def ob_meta_sym(ctx, encs, N):
 def ob_history(ctx, K, encs, N):
     """container histories (main -> change -> file -> file -> change ...): every container declares an encoding
     or not; each is followed by a probe section whose decoding depends on the effective encoding"""
+    script, probes, wit = history_script(ctx, K, encs, N)
+    recs, data = _write_read(ctx, script, wit)
+    if data is None:
+        return recs
+    props = _structure_props(script, recs)
+    if props is None:
+        return viol('record-sequence', dict(wit(ctx.model()), got=[r['section'] for r in recs]))
+    for idx, t in probes:
+        exp, _ = norm_text(t, None)
+        props.append(('probe-text', seq_eq(recs[idx].get('text'), exp)))
+    for r, (sid, fn, a, k) in zip(recs[1:], script.calls):
+        if fn == 'write_meta':
+            props.append(('meta', r.get('metadata') == a[0]))
+    return verdict(ctx, props, witness=wit, sample=lambda m: wit(m))
+
+
+def history_script(ctx, K, encs, N):
     main_enc = ctx.pick('main', encs)
     script = Script(main_enc)
     probes = []
@@ -253,19 +270,7 @@ def ob_history(ctx, K, encs, N):
         for sid, fn, a, k in script.calls:
             calls.append([fn, [model_str(m, x) if isinstance(x, (str,)) or hasattr(x, 'el') else x for x in a], k])
         return {'kind': 'history', 'main_encoding': main_enc, 'calls': calls}
-    recs, data = _write_read(ctx, script, wit)
-    if data is None:
-        return recs
-    props = _structure_props(script, recs)
-    if props is None:
-        return viol('record-sequence', dict(wit(ctx.model()), got=[r['section'] for r in recs]))
-    for idx, t in probes:
-        exp, _ = norm_text(t, None)
-        props.append(('probe-text', seq_eq(recs[idx].get('text'), exp)))
-    for r, (sid, fn, a, k) in zip(recs[1:], script.calls):
-        if fn == 'write_meta':
-            props.append(('meta', r.get('metadata') == a[0]))
-    return verdict(ctx, props, witness=wit, sample=lambda m: wit(m))
+    return script, probes, wit
 
 
 def _enc_configs(cat):
